@@ -38,9 +38,14 @@ CLAIMED["C15"] = dict(
    note=NOTE + " The fsnotify/inotify stub is trusted to be faithful for create/write/remove on one directory (FIFO, no loss, coalescing of an event identical to the newest unread one, non-remove events dropped when the file is gone at processing time, as fsnotify v1.4.9 does). Real kernel timing is not covered.",
    tech="deterministic simulation with fault injection: real follow readers on real scratch files inside one testing/synctest bubble, stubbed inotify event queue, writer client and reader scheduled by one seeded tape, fake clock for poll delays, prefix invariant at every step plus bounded liveness, tape shrinking and fresh-process replay")
 
+CLAIMED["C06"] = dict(
+   text="Seeded search over directory trees x argument forms x -z/-R/--readers x one injected open or read failure, with the whole CLI (`rare filter`) running in-process under the tape-driven scheduler; oracle: own reference expansion of the arguments, per-input expected (source, line, text) sets (stdlib gzip on a private copy decides what -z delivers), open counts from the fs seam, `[Log]` lines naming each failing input, and the exit-status table; termination monitor catches leaked reader slots. Evidence over explored runs, not proof.",
+   ref="DESIGN.md section 5 C06",
+   note=NOTE + " Oracles: stdlib compress/gzip for decompressed content, filepath.Match for one glob component, own tree walk. Content of a bit-flipped gzip stream is not checked (only that it is reported and the other inputs are complete).",
+   tech=TECH)
+
 NA = {
  "C03": "check under construction in this session (whole-CLI metamorphic world); will be claimed once its quick tier is green",
- "C06": "check under construction in this session",
  "C07": "pure: a sequential data structure folded over a sample list; no schedule, clock or fault in it (the end state for orders the pipeline produces is compared to an independent fold by C03's oracle)",
  "C08": "pure function of (template, context): nothing to schedule or fault; input generation would not be simulation",
  "C09": "pure parser round-trip over template strings",
